@@ -871,6 +871,14 @@ class TypeQualifier(TypeQualifierBase, metaclass=_TypeQualifier):
             self._value, (Bit, BitVector)
         ):
             self._value.copy()._assign(_decay(value))
+        elif isinstance(value, (list, tuple)) and isinstance(self._value, Array):
+            # element-wise initialization of arrays
+            elem = self._value._elemtype_()
+
+            if isinstance(elem, (Bit, BitVector)):
+                for elem_value in value:
+                    if isinstance(elem_value, TypeQualifier):
+                        elem.copy()._assign(_decay(elem_value))
 
     @_intrinsic_replacement(__bool__)
     def _bool_replacement(self):
